@@ -97,10 +97,10 @@ def foreignRules (c : Cfg) (s : State) : Token → Res
       | [_] => .ok s
       | e :: es =>
         -- the current node (not an HTML element here): compare, then walk down
-        if e.name == n then .ok (s.onTree fun t => { t with stack := es })
+        if e.name == n then .ok (s.onTree (·.setStack es))
         else
           match foreignEndLoop n es with
-          | .popTo st => .ok (s.onTree fun t => { t with stack := st })
+          | .popTo st => .ok (s.onTree (·.setStack st))
           | .unchanged => .ok s
           | .handOver => .reprocess s true
   | .eof => .ok s       -- not reachable: EOF is dispatched to the HTML rules
